@@ -776,7 +776,9 @@ impl JobServerHandle {
             if got_token {
                 return Ok(());
             }
-            backoff *= 2;
+            // Waiting for a token can take as long as the longest job; keep
+            // doubling and the Duration overflows (a panic) after a minute.
+            backoff = cmp::min(backoff * 2, Duration::from_secs(1));
             {
                 let has_token = {
                     let state = self.state.borrow();
